@@ -413,7 +413,7 @@ impl ExpandedField<'_> {
             Some(quote!(#[serde(deserialize_with = "graphql_client::serde_with::deserialize_id")]))
         } else if is_id {
             Some(
-                quote!(#[serde(deserialize_with = "graphql_client::serde_with::deserialize_option_id")]),
+                quote!(#[serde(default, deserialize_with = "graphql_client::serde_with::deserialize_option_id")]),
             )
         } else {
             None
